@@ -159,12 +159,15 @@ impl Scaled {
         let integer_part: i32 = int_str
             .parse()
             .map_err(|_| format!("invalid number {int_str:?} in dimension {s:?}"))?;
-        let frac_digits: Vec<u8> = frac_str.chars().map(|c| c as u8 - b'0').collect();
-        if frac_digits.iter().any(|&d| d > 9) {
+        let frac_digits: Option<Vec<u8>> = frac_str
+            .chars()
+            .map(|c| c.to_digit(10).map(|d| d as u8))
+            .collect();
+        let Some(frac_digits) = frac_digits else {
             return Err(format!(
                 "invalid fractional part {frac_str:?} in dimension {s:?}"
             ));
-        }
+        };
         let fractional_part = Scaled::from_decimal_digits(&frac_digits);
         Scaled::new(integer_part, fractional_part, unit)
             .map_err(|_| format!("dimension {s:?} is out of range"))
